@@ -349,6 +349,10 @@ func (s *sess) consume(kind string, r io.Reader, status smtp.StatusCollector) (e
 			rerr = er
 			break
 		}
+		if len(body) > MaxRecordedBody {
+			rerr = b.endless(s, len(body))
+			break
+		}
 	}
 	b.afterEOF(s, r, rerr)
 	b.mu.Lock()
@@ -392,6 +396,9 @@ func (s *sess) byContent(e *Event, r io.Reader, idx int) error {
 			var n int
 			n, rerr = r.Read(buf)
 			body = append(body, buf[:n]...)
+			if rerr == nil && len(body) > MaxRecordedBody {
+				rerr = b.endless(s, len(body))
+			}
 		}
 	}
 	b.afterEOF(s, r, rerr)
@@ -422,6 +429,17 @@ func (s *sess) byContent(e *Event, r io.Reader, idx int) error {
 		panic("backend panic for message " + line)
 	}
 	return nil
+}
+
+// MaxRecordedBody bounds what the recording backend reads of one message: no input of any check comes near it, so a
+// message reader that yields more invents octets (a reader stuck in a loop would otherwise eat all memory).
+const MaxRecordedBody = 64 << 20
+
+func (b *Backend) endless(s *sess, n int) error {
+	b.mu.Lock()
+	b.Anomalies = append(b.Anomalies, fmt.Sprintf("the message reader of session #%d produced more than %d octets without ending - more than the whole input contains (a reader that invents data)", s.id, n))
+	b.mu.Unlock()
+	return fmt.Errorf("recording backend: message reader does not end")
 }
 
 // FirstAnomaly returns the first recorded anomaly ("" if none).
